@@ -2,6 +2,9 @@
 #[cfg(kani)]
 mod verif_kani_resp_codec {
     use super::*;
+    // rustc resolves this `use` to the crate the code under test links against (a second `memchr`
+    // lives in the std sysroot and is what a plain `memchr::…` stub path would name)
+    use memchr::memchr::memchr as dep_memchr;
 
     const ALPHABET: [u8; 18] = [
         b'+', b'-', b':', b'$', b'*', b'\r', b'\n', b'0', b'1', b'2', b'3', b'4', b'5', b'6', b'7', b'8', b'9', b'a',
@@ -57,7 +60,7 @@ mod verif_kani_resp_codec {
     // @complete: false
     #[kani::proof]
     #[kani::unwind(8)]
-    #[kani::stub(memchr::memchr::memchr, memchr_stub)]
+    #[kani::stub(dep_memchr, memchr_stub)]
     #[kani::stub(alloc::fmt::format, fmt_format_stub)]
     #[kani::stub(core::fmt::write, fmt_write_stub)]
     #[kani::stub(core::fmt::Formatter::pad, fmt_pad_stub)]
@@ -75,7 +78,7 @@ mod verif_kani_resp_codec {
     // @complete: false
     #[kani::proof]
     #[kani::unwind(8)]
-    #[kani::stub(memchr::memchr::memchr_raw, memchr_raw_stub)]
+    #[kani::stub(dep_memchr, memchr_stub)]
     fn h_probe_memchr() {
         let (buf, len) = any_input::<4>();
         let r = memchr::memchr(b'\r', &buf[..len]);
